@@ -681,6 +681,12 @@ loop:
 					sc.flushStreams(strms, closeStream)
 				}
 
+				// flushStreams may just have finished the last stream a GOAWAY was
+				// waiting for, and nothing else may ever arrive to notice.
+				if isClosing() && canCloseAfterGoAway() {
+					break loop
+				}
+
 				continue
 			}
 
